@@ -148,18 +148,21 @@ def Manager.levelToPrevLevel (g : Manager) (id level : Nat) : Except SErr Nat :=
 
 /-! ### DEHB manager additions -/
 
-/-- `_parent_rung[(offset, level)] = (bracket_delta, rung_index)` -/
-def Manager.parentRung (g : Manager) (offset level : Nat) : Option (Nat Ã— Nat) :=
+/-- `_parent_rung[(offset, level)] = (bracket_delta, rung_index)`; for offset 0 the delta
+`num_bracket_offsets - rung_index` can be zero or negative -/
+def Manager.parentRung (g : Manager) (offset level : Nat) : Option (Int Ã— Nat) :=
   match g.bracketRungs[offset]? with
   | none => none
   | some rs =>
     match rs.findIdx? (fun r => r.2 == level) with
     | none => none
-    | some ri => if offset > 0 then some (1, ri + 1) else some (g.numOffsets - ri, 0)
+    | some ri => if offset > 0 then some (1, ri + 1) else some ((g.numOffsets : Int) - (ri : Int), 0)
 
-/-- `trial_id_from_parent_slot`; `fuel` bounds the `while` loop (`bracket_id` decreases). -/
+/-- `trial_id_from_parent_slot`; `fuel` bounds the `while` loop.  When the bracket id does
+not decrease and the slot is empty the Python loop does not terminate: explicit error
+(the harness never asks such a question). -/
 def Manager.parentSlotLoop (g : Manager) (level slotIndex : Nat) : Nat â†’ Nat â†’ Except SErr (Option Nat)
-  | 0, _ => .ok none
+  | 0, _ => .error (.other "non-termination")
   | fuel + 1, id =>
     if id = 0 then .ok none else
     match g.idToOffset[id]? with
@@ -168,17 +171,16 @@ def Manager.parentSlotLoop (g : Manager) (level slotIndex : Nat) : Nat â†’ Nat â
       match g.parentRung offset level with
       | none => .error (.keyError "_parent_rung")
       | some (delta, ri) =>
-        -- `num_bracket_offsets - rung_index <= 0`: the Python loop does not advance (it hangs or
-        -- walks upwards); outside the model, the harness never asks this
-        if delta = 0 then .error (.other "bracket_delta <= 0") else
-        if id < delta then .error (.other "negative bracket index") else
-        match g.brackets[id - delta]? with
+        if (id : Int) - delta < 0 then .error (.other "negative bracket index") else
+        match g.brackets[((id : Int) - delta).toNat]? with
         | none => .error (.other "IndexError")
         | some br =>
           match br.trialIdForSlot ri slotIndex with
           | .error e => .error e
           | .ok (some t) => .ok (some t)
-          | .ok none => g.parentSlotLoop level slotIndex fuel (id - delta)
+          | .ok none =>
+            if delta â‰¤ 0 then .error (.other "non-termination")
+            else g.parentSlotLoop level slotIndex fuel ((id : Int) - delta).toNat
 
 def Manager.trialIdFromParentSlot (g : Manager) (id level slotIndex : Nat) : Except SErr (Option Nat) :=
   g.parentSlotLoop level slotIndex (id + 1) id
